@@ -12,6 +12,7 @@ import (
 	"context"
 	"fmt"
 	"net"
+	"net/http"
 	"net/netip"
 	"os"
 	"path/filepath"
@@ -150,6 +151,11 @@ type vkConf struct {
 	ServicesPauseAlways bool
 	Clients             []vkClient
 	AAAADisabled        bool
+	// CacheSize enables the DNS response cache of the proxy (bytes).
+	CacheSize uint32
+	// HTTP makes the filter register its admin API handlers (captured in
+	// vkServer.Handlers) and start its background loop, as home does.
+	HTTP bool
 }
 
 // vkServer bundles a running server with its observers.
@@ -162,6 +168,9 @@ type vkServer struct {
 	TCP    string
 	dir    string
 	closed bool
+	// Handlers are the admin API handlers registered by the filter, keyed by
+	// "METHOD /path".
+	Handlers map[string]http.HandlerFunc
 }
 
 func vkWeekly(pauseAlways bool) *schedule.Weekly {
@@ -266,12 +275,21 @@ func vkStartOnce(c *vkConf) (vs *vkServer, err error) {
 		return nil, fmt.Errorf("client storage: %w", err)
 	}
 	fconf.ApplyClientFiltering = st.ApplyClientFiltering
+	handlers := map[string]http.HandlerFunc{}
+	if c.HTTP {
+		fconf.HTTPRegister = func(method, url string, h http.HandlerFunc) { handlers[method+" "+url] = h }
+		fconf.HTTPClient = &http.Client{Timeout: 10 * time.Second}
+		fconf.ConfigModified = func() {}
+	}
 
 	f, err := filtering.New(fconf, nil)
 	if err != nil {
 		return nil, fmt.Errorf("filtering.New: %w", err)
 	}
 	f.EnableFilters(false)
+	if c.HTTP {
+		f.Start()
+	}
 
 	up := &vkUpstream{}
 	ql := &vkQLog{}
@@ -300,6 +318,7 @@ func vkStartOnce(c *vkConf) (vs *vkServer, err error) {
 			EDNSClientSubnet: &EDNSClientSubnet{Enabled: false},
 			ClientsContainer: EmptyClientsContainer{},
 			AAAADisabled:     c.AAAADisabled,
+			CacheSize:        c.CacheSize,
 		},
 		ConfigModified: func() {},
 		ServePlainDNS:  true,
@@ -317,7 +336,7 @@ func vkStartOnce(c *vkConf) (vs *vkServer, err error) {
 	}
 
 	return &vkServer{
-		S: s, F: f, Up: up, QLog: ql, dir: dir,
+		S: s, F: f, Up: up, QLog: ql, dir: dir, Handlers: handlers,
 		UDP: s.dnsProxy.Addr(proxy.ProtoUDP).String(),
 		TCP: s.dnsProxy.Addr(proxy.ProtoTCP).String(),
 	}, nil
